@@ -219,6 +219,7 @@ class Generator:
 
         rbstr_on = any(rw[0] == 'RBSTR' for rw in u.rewrites)
         rct_taken = set()
+        guarded_spans = []
 
         def text_of(s, e):
             """source text of [s,e); when RBSTR is active, byte-string literals inside it are already in array-literal form
@@ -365,6 +366,31 @@ class Generator:
                 if n == 0:
                     raise GenError(f'lost-anchor: no closure containing "{rw[1]}" in {u.fnpath}')
                 applied.append(f'RCT closures containing "{rw[1]}" x{n} annotated: -> (cr: {rty}) ensures {ens}')
+            elif kind == 'RGUARD':
+                # `match X { P if G => B, _ => E }`  ->  `match X { P => { if G B' else { E } }, _ => E }`  (B' = B as a block)
+                # Same evaluation order, same bindings, G evaluated once, E duplicated textually. Only this two-arm shape is
+                # rewritten (first arm guarded, second arm a bare `_`). Reason: the installed Verus loses the state of `&mut`
+                # variables across a match arm that has a guard.
+                n = 0
+                for m in fn.get('matches', []):
+                    if not inside(m['span'], span) or len(m['arms']) != 2:
+                        continue
+                    a0, a1 = m['arms']
+                    if not a0['guard'] or a1['guard'] or normtok(a1['pat']) != '_':
+                        continue
+                    g = a0['guard']
+                    gtxt = src[g['expr'][0]:g['expr'][1]].decode()
+                    etxt = text_of(a1['body'][0], a1['body'][1])
+                    guarded_spans.append((g['if'][0], g['expr'][1]))
+                    guarded_spans.append(tuple(a1['body']))
+                    add_edit(g['if'][0], g['expr'][1], '', 'RGUARD')
+                    bblock = src[a0['body'][0]:a0['body'][0] + 1] == b'{'
+                    add_edit(a0['body'][0], a0['body'][0], '{ if ' + gtxt + (' ' if bblock else ' { '), 'RGUARD')
+                    add_edit(a0['body'][1], a0['body'][1], ('' if bblock else ' }') + ' else { ' + etxt + ' } }', 'RGUARD')
+                    n += 1
+                if n == 0:
+                    raise GenError(f'lost-anchor: RGUARD found no `P if G => B, _ => E` match in {u.fnpath}')
+                applied.append(f'RGUARD x{n} (guarded two-arm match -> if/else inside the arm)')
             elif kind == 'RT':
                 old, new = rw[1], rw[2]
                 body = src[span[0]:span[1]].decode()
@@ -405,6 +431,10 @@ class Generator:
                 raise GenError(f'lost-anchor: at-stmt "{prefix}" #{k} in {u.fnpath}')
             add_edit(c[k]['span'][0], c[k]['span'][0], ('SPLICE', text), 'at')
 
+        for (gs, ge) in guarded_spans:
+            for x in edits:
+                if x[3] != 'RGUARD' and gs <= x[0] and x[1] <= ge and not (x[0] == x[1] == gs) and not (x[3] == 'RBSTR'):
+                    raise GenError(f'unsupported: rewrite {x[3]} inside a guard / else-body moved by RGUARD in {u.fnpath}')
         # an RBSTR edit inside a larger replacement is already carried by that replacement (text_of)
         edits = [x for x in edits if not (x[3] == 'RBSTR' and any(y is not x and y[3] != 'RBSTR' and y[0] <= x[0] and x[1] <= y[1] and not isinstance(y[2], tuple) for y in edits))]
         edits.sort(key=lambda e: (e[0], e[1]))
